@@ -236,6 +236,7 @@ type walkerPipeline interface {
 
 // パイプラインの全ステージで最初のエラーを返却
 func (*treePipeline) handlePipelineErr(ctx context.Context, echs ...<-chan error) error {
+	verifPoint("handle.wait")
 	eg, ectx := errgroup.WithContext(ctx)
 	for i := range echs {
 		i := i
